@@ -1,6 +1,6 @@
 """C01 - decided by spec/core/Geoh5Core.tla (TLC) + replay of the exported state graph (harness/core_replay.py)."""
 from ..core_check import make
 
-run, replay = make("C01", ["C01_quick.cfg", "C01pg_quick.cfg", "C01cf_quick.cfg", "C01cp_quick.cfg"], ["C01_thorough.cfg", ("Sim_all.cfg", {"num": 150, "depth": 30})],
+run, replay = make("C01", ["C01_quick.cfg", "C01pg_quick.cfg", "C01cf_quick.cfg", "C01cp_quick.cfg", "C01md_quick.cfg"], ["C01_thorough.cfg", ("Sim_all.cfg", {"num": 150, "depth": 30})],
                    "histories with close/re-open and GC points: after every action the live projection, the raw file snapshot and the outcome are compared with the state TLC computed; at every Open and at the end of every behaviour the tree of a fresh reader is compared with the live tree before the close", neg=None,
                    concat=[("DrillholeConcatExportFlags.cfg", 21, None)])
